@@ -209,6 +209,38 @@ Definition gas_ok (parent_limit limit used : N) : bool :=
       then (if limit <=? parent_limit then parent_limit - limit else limit - parent_limit) <? parent_limit / 256
       else negb (gas_bound_bad parent_limit limit)).
 
+(** ** The property, conjunct by conjunct, as Boolean functions of plain data (what the monitor evaluates on
+    the observed state; Proofs/BscMon.v shows that every step the model accepts passes each of them) *)
+Definition mon_link (hash_hd : bytes) (hd h : header) : bool :=
+  (h_num h =? add64 (h_num hd) 1) && bytes_eqb (to_hash (h_parent h)) hash_hd.
+
+Definition mon_struct (epoch : N) (hd h : header) : bool :=
+  (97 <=? len (h_extra h)) && bytes_eqb (to_hash (h_mix h)) (zeros 32) && bytes_eqb (to_hash (h_uncle h)) uncleHash
+  && (if h_num h mod epoch =? 0 then (len (h_extra h) - 97) mod 20 =? 0 else len (h_extra h) =? 97)
+  && negb (N_of_bytes (h_diff h) =? 0) && gas_ok (h_gaslimit hd) (h_gaslimit h) (h_gasused h).
+
+Definition mon_seal (rec : option bytes) (vals : list bytes) (h : header) : bool :=
+  match rec with
+  | Some a => bytes_eqb (to_addr a) (to_addr (h_coinbase h)) && mem (to_addr a) (map to_addr vals)
+  | None => false
+  end.
+
+Definition mon_window (ch : list gentry) (n limit : N) (sealer : bytes) : list gentry :=
+  filter (fun e => bytes_eqb (ge_sealer e) sealer) (in_window n limit ch).
+
+Definition mon_diff (vals : list bytes) (hd h : header) (sealer : bytes) : bool :=
+  let sv := sorted_vals vals in
+  let turn := match nth_error sv (N.to_nat (add64 (h_num hd) 1 mod len sv)) with
+              | Some v => bytes_eqb v sealer | None => false end in
+  N_of_bytes (h_diff h) =? (if turn then 2 else 1).
+
+Definition mon_vals (epoch : N) (h : header) (pre_vals post_vals : list bytes) (epoch_extra : bytes) : bool :=
+  if h_num h mod epoch =? len pre_vals / 2 then list_eqb bytes_eqb post_vals (parse_validators epoch_extra)
+  else list_eqb bytes_eqb post_vals pre_vals.
+
+Definition mon_pending (post_pending : option (list bytes)) (epoch_extra : bytes) : bool :=
+  opt_eqb (list_eqb bytes_eqb) post_pending (pend_of (parse_validators epoch_extra)).
+
 Section Monitor.
   Variable tab : list (header * (option bytes * option bytes)).
   Variable cs0 : cstate.             (* the client state as created *)
@@ -242,42 +274,29 @@ Section Monitor.
   (** kinds: 21 parent link / head, 22 structure, 23 seal / membership, 24 recent-signer window,
       25 difficulty vs turn, 26 validator-set change, 27 pending set, 28 consensus states, 29 a rejected
       submission changed the state, 30 recent-signer store gained a foreign entry,
-      41 window violated because number < limit (unsigned wrap), 42 window violated for a block whose
-      consensus state had been pruned (its recent-signer entry was deleted with it) *)
+      41 window violated with number < limit (the unsigned wrap repaired by c10316e), 42 window violated for a
+      block whose consensus state had been pruned (repaired by 5f05f37) *)
   Definition mon_accept (i : nat) (ms : mstate) (o : ostep) : list nat :=
     let pre := m_pre ms in let post := s_state o in let h := s_hdr o in let hd := m_head ms in
     let epoch := c_epoch cs0 in
     let n := h_num h in
-    let sealer := match tab_ecrecover tab 0 h with Some a => to_addr a | None => [] end in
-    let e_link := negb ((n =? add64 (h_num hd) 1) && bytes_eqb (to_hash (h_parent h)) (tab_hash tab hd)
-                        && opt_eqb Nat.eqb (o_head post) (Some i)) in
-    let is_epoch := n mod epoch =? 0 in
-    let e_struct := negb ((97 <=? len (h_extra h)) && bytes_eqb (to_hash (h_mix h)) (zeros 32)
-                          && bytes_eqb (to_hash (h_uncle h)) uncleHash
-                          && (if is_epoch then (len (h_extra h) - 97) mod 20 =? 0 else len (h_extra h) =? 97)
-                          && negb (N_of_bytes (h_diff h) =? 0)
-                          && gas_ok (h_gaslimit hd) (h_gaslimit h) (h_gasused h)) in
-    let pre_addrs := map to_addr (o_vals pre) in
-    let e_seal := negb (match tab_ecrecover tab 0 h with Some _ => true | None => false end
-                        && bytes_eqb sealer (to_addr (h_coinbase h)) && mem sealer pre_addrs) in
+    let rec := tab_ecrecover tab 0 h in
+    let sealer := match rec with Some a => to_addr a | None => [] end in
+    let e_link := negb (mon_link (tab_hash tab hd) hd h && opt_eqb Nat.eqb (o_head post) (Some i)) in
+    let e_struct := negb (mon_struct epoch hd h) in
+    let e_seal := negb (mon_seal rec (o_vals pre) h) in
     let limit := nodup_len (o_vals pre) / 2 + 1 in
-    let bad := filter (fun e => bytes_eqb (ge_sealer e) sealer) (in_window n limit (m_chain ms)) in
+    let bad := mon_window (m_chain ms) n limit sealer in
     let e_window := match bad with
                     | [] => 0%nat
                     | _ => if n <? limit then 41%nat
                            else if forallb (fun e => negb (cons_has pre (ge_key e))) bad then 42%nat
                            else 24%nat
                     end in
-    let sv := sorted_vals (o_vals pre) in
-    let turn := match nth_error sv (N.to_nat ((h_num hd + 1) mod len sv)) with
-                | Some v => bytes_eqb v sealer | None => false end in
-    let e_diff := negb (N_of_bytes (h_diff h) =? (if turn then 2 else 1)) in
-    let epoch_extra := if is_epoch then h_extra h else m_epoch_extra ms in
-    let e_vals := negb (if n mod epoch =? len (o_vals pre) / 2
-                        then list_eqb bytes_eqb (o_vals post) (parse_validators epoch_extra)
-                        else list_eqb bytes_eqb (o_vals post) (o_vals pre)) in
-    let e_pending := negb (opt_eqb (list_eqb bytes_eqb) (o_pending post)
-                                   (match parse_validators epoch_extra with [] => None | l => Some l end)) in
+    let e_diff := negb (mon_diff (o_vals pre) hd h sealer) in
+    let epoch_extra := if n mod epoch =? 0 then h_extra h else m_epoch_extra ms in
+    let e_vals := negb (mon_vals epoch h (o_vals pre) (o_vals post) epoch_extra) in
+    let e_pending := negb (mon_pending (o_pending post) epoch_extra) in
     let newkey := cons_key (hheight h) in
     let e_cons := negb (existsb (conse_eqb (newkey, (h_time h, hheight h, h_root h))) (o_cons post)
                         && removed_ok (s_bt o) pre post newkey) in
